@@ -220,9 +220,11 @@ Fixpoint list_eqb (a b : list N) : bool :=
   | _, _ => false
   end.
 
-(*  self.data[0..11] == sfn.contents *)
+(*  !self.is_lfn() && self.data[0..11] == sfn.contents *)
 Definition matches (d : list N) (sfn : list N) : outcome bool :=
-  if Nat.leb 11 (length d) then Val (list_eqb (firstn 11 d) sfn) else Panic.
+  bind (is_lfn d) (fun l =>
+  if l then Val false
+  else if Nat.leb 11 (length d) then Val (list_eqb (firstn 11 d) sfn) else Panic).
 
 (*  (u32::from(hi) << 16) | u32::from(lo) *)
 Definition first_cluster_fat32 (d : list N) : outcome N :=
